@@ -367,13 +367,15 @@ def replay_diff(cex):
         for d in (1e-9, 1e-8, 1e-7, 1e-6, 1e-4, 1e-2, 0.3):
             pts += [(lat1, 0.0, -lat1, 180 - d), (lat1, 100.0, -lat1 + d / 2, 100 - 180 + d), (lat1, 10.0, lat1 + d / 3, 10 + d), (lat1, -75.0, lat1 - d, -75.0 + 2 * d)]
         pts += [(lat1, 0.0, 20.0, 70.0), (lat1, 0.0, -lat1 + 1, 179.0), (lat1, 0.0, -lat1 - 0.2, 179.8)]
+    polar = [(30.0, 0.0, 40.0, 180.0), (-20.0, 90.0, 50.0, -90.0), (10.0, 0.5, 60.0, -179.5), (-35.0, 7.25, -50.0, 187.25)]          # edges through a pole: alp12 = +-180, fixed up identically by both solvers
+    pts += polar
     for (a, fl) in ((6378137.0, 1 / 298.257223563), (6378137.0, 1 / 150.0), (6378137.0, -1 / 150.0)):
         for (lat1, lon1, lat2, lon2) in pts:
             if abs(lat2) > 90: continue
             A = (ctypes.c_double * 9)(); B = (ctypes.c_double * 9)(); fs(a, fl, lat1, lon1, lat2, lon2, A); fx(a, fl, lat1, lon1, lat2, lon2, B); n += 1
             dev = abs(A[0] - B[0]); dev = dev if dev == dev else float('inf')
             if dev > worst: worst = dev; msg = 'a=%g f=%.9g (%.12g,%.12g)->(%.12g,%.12g): series s12 = %.6f m, exact s12 = %.6f m' % (a, fl, lat1, lon1, lat2, lon2, A[0], B[0])
-            if fl == 1 / 298.257223563 and abs(lon2 - lon1) < 170:            # area: documented accuracy of the series 0.1 m^2 on WGS84 (away from the antipode, where S12 is ill-conditioned)
+            if fl == 1 / 298.257223563 and (abs(lon2 - lon1) < 170 or (lat1, lon1, lat2, lon2) in polar):            # area: documented accuracy of the series 0.1 m^2 on WGS84 (away from the antipode, where S12 is ill-conditioned)
                 da = abs(A[8] - B[8]); da = da if da == da else float('inf')
                 if da > worstS: worstS = da; msgS = '(%.12g,%.12g)->(%.12g,%.12g) on WGS84: series S12 = %.4f m^2, exact S12 = %.4f m^2' % (lat1, lon1, lat2, lon2, A[8], B[8])
     return (worst > 1e-5 or worstS > 0.5), 'Geodesic vs GeodesicExact on the real code at %d problems (disagreement reported by the solver on output %s): largest |s12 difference| %.3g m; %s; largest |S12 difference| %.3g m^2; %s' % (n, cex.get('output'), worst, msg, worstS, msgS)
